@@ -150,10 +150,14 @@ class Runner:
                 got = [json.loads(x) for x in open(rlog) if x.strip()]
                 if got and got[0]["ev"] == "Recover":      # it did not even open: that is the observation
                     rec_lines = got
-            # any other status: the reopening process died by itself; the real recovery below observes the directory
+            elif rr.returncode < 0 or rr.returncode > 2:
+                raise Broken("reopen %s failed (rc=%d)\n%s" % (cid, rr.returncode, rr.stdout[-2000:]))
+            # status 2: the reopening process panicked by itself; the real recovery below observes the directory
         if rec_lines is None:
             rr = self.vh(["durability-recover", "-dir", os.path.join(d, "db"), "-ref", self.ref, "-out", rlog, "-seed", self.wseed, "-nb", self.nb])
             rec_lines = [json.loads(x) for x in open(rlog) if x.strip()] if os.path.exists(rlog) else []
+            if rr.returncode != 0 and not (rr.returncode == 2 and ("panic:" in rr.stdout or "fatal error:" in rr.stdout)):
+                raise Broken("recover %s failed without a Go panic (rc=%d)\n%s" % (cid, rr.returncode, rr.stdout[-2000:]))
             if rr.returncode != 0:
                 # the recovering process died (a panic in a goroutine of the store cannot be caught by the driver)
                 site = self.site_of(rr.stdout)
@@ -167,6 +171,7 @@ class Runner:
         rec = rec_lines[0]
         summ = dict(case=cid, crashed=crash is not None,
                     tag=crash["tag"] if crash else "end", main_last=crash["main_last"] if crash else "end",
+                    writer_last=crash["writer_last"] if crash else "end",
                     torn=bool(crash and crash["torn"]), promote_done=lines[1]["promote_done"],
                     opened=bool(rec.get("opened")) and not rec.get("died"),
                     stable_h=rec["obs"]["stable_h"] if "obs" in rec else None)
@@ -229,16 +234,22 @@ def design(ctx):
         raise Broken("vacuity gate: actions never taken in the design run: %s" % acts)
     # negative controls: with a repair flag off (= what the code does) TLC must find the corresponding counterexample
     neg = {}
-    for name, want in (("MCDurability_code.cfg", None),                       # everything the code does: some clause fails
-                       ("MCDurability_noTornTail.cfg", "Opens"),              # Dev_TornWalTailPanics
-                       ("MCDurability_noTornTailZero.cfg", "AccountsExact"),  # Dev_TornWalRecordAccepted
-                       ("MCDurability_noAtomicCtx.cfg", "Opens"),             # Dev_TornContextPanics
-                       ("MCDurability_noScanPromotes.cfg", "AccountsExact"),  # Dev_BatchAheadOfStablePointer
-                       ("MCDurability_noScanPromotesCtx.cfg", "ContextFresh")):  # Dev_StaleCandidatesAfterCrash
-        n = ctx.tlc("MCDurability", name, timeout=600, expect_ok=False)
+    controls = [("MCDurability_code.cfg", None),                         # everything the code does: some clause fails
+                ("MCDurability_noTornTail.cfg", "Opens"),                # Dev_TornWalTailPanics
+                ("MCDurability_noTornTailZero.cfg", "AccountsExact"),    # Dev_TornWalRecordAccepted
+                ("MCDurability_noAtomicCtx.cfg", "Opens"),               # Dev_TornContextPanics
+                ("MCDurability_noScanPromotes.cfg", "AccountsExact"),    # Dev_BatchAheadOfStablePointer
+                ("MCDurability_noScanPromotesCtx.cfg", "ContextFresh")]  # Dev_StaleCandidatesAfterCrash
+
+    def one(i):
+        __import__("time").sleep(0.15 * i)          # distinct metadir names
+        return ctx.tlc("MCDurability", controls[i][0], workers=2, timeout=600, expect_ok=False)
+    with concurrent.futures.ThreadPoolExecutor(len(controls)) as ex:
+        res = list(ex.map(one, range(len(controls))))
+    for (name, want), n in zip(controls, res):
         neg[name] = n["inv"]
         if not n["inv"]:
-            raise Broken("negative control %s: the code-shaped pipeline should violate an invariant in the model" % name)
+            raise Broken("negative control %s: the code-shaped pipeline should violate an invariant in the model\n%s" % (name, n["out"][-1500:]))
         if want and n["inv"] != want:
             raise Broken("negative control %s: expected %s to be violated, TLC reports %s" % (name, want, n["inv"]))
     ctx.extra["negative_controls_model_violates"] = neg
@@ -247,8 +258,8 @@ def design(ctx):
 def run(ctx):
     Broken = __import__("vlib").Broken
     ctx.build()
-    if not os.environ.get("C08_SKIP_DESIGN"):
-        design(ctx)
+    os.environ.setdefault("VERIF_TLC_HEAP", "4g")      # 6.6e6 small states at most: leave memory to the 16 store sub-processes
+    design(ctx)
     nb = 6
     wseeds = [ctx.seed] if ctx.quick() else [ctx.seed, ctx.seed + 1000, ctx.seed + 2000]
     files, summaries, ncases = [], [], 0
@@ -292,6 +303,10 @@ def run(ctx):
         by_tag[s["tag"]] = by_tag.get(s["tag"], 0) + 1
     ctx.extra["crashes_by_tag"] = by_tag
     ctx.extra["cases_not_opened"] = sum(1 for s in summaries if not s["opened"])
+    # which (main thread position, writer position) pairs - the (pc, wpc) pairs of Durability.tla - were really crashed in
+    pairs = sorted(set((s["main_last"], s["writer_last"]) for s in crashed))
+    ctx.extra["crash_position_pairs_covered"] = len(pairs)
+    ctx.extra["crash_position_pairs"] = ["%s|%s" % p for p in pairs]
     ctx.cov["samples"] = [s for s in summaries if s["crashed"]][:: max(1, len(crashed) // 6)][:6]
     ctx.assumptions += [
         "crash model: process death - bytes of completed write(2) calls persist; not power loss",
